@@ -4,6 +4,7 @@ package file
 import (
 	"fmt"
 	"strings"
+	"unicode/utf8"
 
 	"gopkg.in/sourcemap.v1"
 )
@@ -174,7 +175,7 @@ func (fl *File) Position(idx Idx) *Position {
 	position.Filename = fl.name
 	position.Offset = offset
 	position.Line = lines + 1
-	position.Column = offset - start + 1
+	position.Column = utf8.RuneCountInString(fl.src[start:offset]) + 1
 
 	if fl.sm != nil {
 		if f, _, l, c, ok := fl.sm.Source(position.Line, position.Column); ok {
